@@ -525,6 +525,19 @@ def rule_metric_source(ctx: Ctx) -> None:
         pen = [c for c in calls_in(ev) if isinstance(c.func, ast.Attribute) and "penalty" in c.func.attr and norm(c.func.value) == "self" and c.args]
         if len(pen) != 1:
             raise AnalysisError(f"{cname}.evaluate: penalty call not found")
+        anc_ = parent(pen[0])
+        in_loop = None
+        while anc_ is not None and anc_ is not ev:
+            if isinstance(anc_, (ast.For, ast.While, ast.ListComp, ast.GeneratorExp, ast.SetComp, ast.DictComp)):
+                in_loop = anc_
+            anc_ = parent(anc_)
+        if in_loop is not None:
+            ctx.fail("metric.source", m, pen[0],
+                     f"{cname}.evaluate applies the penalty function per emitter (`{short(pen[0])}` inside the loop) and aggregates the penalised values: the "
+                     f"metric is penalty(max over emitters of the depth), and max_e penalty(d_e) differs from it for every penalty function that is not "
+                     f"increasing (|d - d0|, d_max - d ...), which the constructor accepts", func=f"{cname}.evaluate",
+                     construct=f"{cname}: penalty applied inside the per-emitter loop")
+            continue
         contrib = {}
         for n in ast.walk(ev):
             if isinstance(n, ast.Assign):
